@@ -20,7 +20,7 @@ pub fn info() -> PropInfo {
 pub fn strategy_for(tier: Tier) -> BoxedStrategy<Case> {
     let all = tier == Tier::Thorough;
     (
-        issue_spec_strategy(ClaimCfg::SHORT_F64, HONEST_PATHS, prop_oneof![Just(HolderKey::Ec), Just(HolderKey::Ed)].boxed()),
+        issue_spec_strategy(ClaimCfg::SHORT_F64, HONEST_PATHS, prop_oneof![Just(HolderKey::Ec), Just(HolderKey::Ed), Just(HolderKey::Ec2), Just(HolderKey::Ed2)].boxed()),
         choices_strategy(),
         aud_nonce_strategy(),
         aud_nonce_strategy(),
